@@ -55,17 +55,25 @@ def opLabels (s : S) : List String → Option (List Label)
   | ["pick", e] => (Ev.ofName e).map (fun e => [.pick e])
   -- gate right after the select receive: the next statement is `setCollectorState(StateClosing)`
   | ["sel"] => if s.pc = .reload1 ∨ s.pc = .shut1 then some [.step true] else none
+  | ["post", "fatal"] => some [.fatal]   -- a component reported StatusFatalError through the real host
   | ["post", e] => (Ev.ofName e).map (fun e => [.post e])
   | ["cancel"] => some [.cancel]
   | "scen" :: _ => some []          -- race cases: scenario descriptor only (monitored, not replayed on the model)
   | _ => none
 
-def shutdownCalls (s : S) : Nat → Option S
+/-- `op shutdown k`: k goroutines are released through a barrier into Shutdown(). The model lets ALL of them read the guard
+before any of them closes (`closers` reaches the number of callers that passed), then lets them close one after the other —
+the interleaving in which every later close meets a closed channel. -/
+def closeAll (fuel : Nat) (s : S) : Option S :=
+  match fuel with
   | 0 => some s
-  | k + 1 => do
-    let s1 ← fire variant s .call
-    let s2 ← if s1.closers > 0 then fire variant s1 .close else some s1
-    shutdownCalls s2 k
+  | n + 1 => if s.closers > 0 then (fire variant s .close).bind (closeAll n) else some s
+
+def shutdownCalls (s : S) (k : Nat) : Option S := do
+  let base := s.closers
+  let s1 ← (List.replicate k Label.call).foldlM (fun s l => fire variant s l) s
+  -- only the callers of this op close; callers that were already inside Shutdown() (none in gated histories) stay
+  closeAll (s1.closers - base) s1
 
 def compIdx : String → Nat
   | "recv" => 0 | "exp" => 1 | "ext" => 2 | _ => 9
